@@ -290,7 +290,7 @@ REFS = {"body": "b1", "joint": "j1", "geom": "g1", "site": "s1", "camera": "c1",
 # (element kind, attribute) -> value that lets the host compile (semantic knowledge, not part of the oracle)
 HINTS = {
     ("ballquat", "joint"): "j2", ("ballangvel", "joint"): "j2",
-    ("geom", "size"): "0.1", ("composite_geom", "size"): "0.05", ("inertial", "diaginertia"): "1 1 1",
+    ("geom", "size"): "0.1", ("composite_geom", "size"): "0.05", ("composite", "type"): "cable", ("inertial", "diaginertia"): "1 1 1",
     ("connect", "body1"): "b1", ("connect", "anchor"): "0 0 0", ("weld", "body1"): "b1",
     ("equality_joint", "joint1"): "j1", ("exclude", "body1"): "b1", ("exclude", "body2"): "b3",
     ("replicate", "count"): "2", ("text", "data"): "abc", ("numeric", "size"): "2",
@@ -317,6 +317,20 @@ EXTRA_CHILD = {
     "tuple": [],
     "composite": ['<geom size=".01"/>'],
 }
+# second-chance hosts: attributes that the hand-written reader insists on although the schema does not mark them required
+# (each of these disagreements is reported by the check on the first-chance host; the enriched host only restores coverage
+# of the other rules for the element kind)
+ENRICH = {
+    "attach": {"body": "b3"}, "dcmotor": {"motorconst": "0.1", "resistance": "1", "joint": "j1"},
+    "extension_plugin": {"plugin": "mujoco.elasticity.cable"},
+    "bone": {"bindpos": "0 0 0", "bindquat": "1 0 0 0", "vertid": "0", "vertweight": "1"},
+    "pulley": {"divisor": "2"}, "user": {"dim": "1"}, "layer": {"texture": "tex1"}, "config": {"value": "1"},
+    "skin": {"vertex": "0 0 0 1 0 0 0 1 0", "face": "0 1 2"},
+    "motor": {"joint": "j1"}, "position": {"joint": "j1"}, "velocity": {"joint": "j1"}, "intvelocity": {"joint": "j1", "actrange": "-1 1"},
+    "general": {"joint": "j1"}, "damper": {"joint": "j1", "ctrlrange": "0 1"}, "cylinder": {"joint": "j1"}, "muscle": {"joint": "j1"},
+    "adhesion": {"body": "b1", "ctrlrange": "0 1"}, "pid": {"joint": "j1"}, "orientation": {"site": "s1"},
+}
+
 OBJNAME_FOR = {"body": "b1", "xbody": "b1", "geom": "g1", "site": "s1", "camera": "c1"}
 
 
@@ -446,6 +460,8 @@ class DocGen:
         return None
 
     # ---- elements --------------------------------------------------------------------------------------------------
+    enrich = False
+
     def minimal(self, decl, ctx, tag=None):
         """a fresh minimal conforming element of the kind (required attributes, one complete `oneof` bundle)"""
         M = self.M
@@ -456,6 +472,10 @@ class DocGen:
                 node.set(n, self.valid_value(decl, a))
         if ctx != "default":
             for n, v in EXTRA_ATTR.get(decl, {}).items():
+                if n in attrs and n not in node.attrib:
+                    node.set(n, v)
+        if self.enrich:
+            for n, v in ENRICH.get(decl, {}).items():
                 if n in attrs and n not in node.attrib:
                     node.set(n, v)
         for kind, bundles in M.cons(decl, ctx):
@@ -472,9 +492,10 @@ class DocGen:
                 node.append(ET.fromstring(txt))
         return node
 
-    def host(self, kind):
+    def host(self, kind, enrich=False):
         """-> (root, target node) : prelude + chain of minimal elements down to the kind"""
         M = self.M
+        self.enrich = enrich
         root = ET.fromstring(PRELUDE)
         path = M.kinds[kind]
         node = root
@@ -484,6 +505,7 @@ class DocGen:
                 ch.set("class", self.fresh("cls"))
             node.append(ch)
             node = ch
+        self.enrich = False
         return root, node
 
 
